@@ -60,6 +60,17 @@ func VerifC07_Delete() {
 	if err != nil {
 		panic(err)
 	}
+	// the journal may hold deletions of an earlier mount; the volume opens it the way NewEcVolume does
+	var before []byte
+	if rt.Bool("journal-not-empty") {
+		before = rt.Bytes("journal-before", types.NeedleIdSize)
+		jf, jerr := os.OpenFile(base+".ecj", os.O_RDWR|os.O_CREATE|os.O_TRUNC, 0644)
+		if jerr != nil {
+			panic(jerr)
+		}
+		jf.Write(before)
+		jf.Close()
+	}
 	ecj, err := os.OpenFile(base+".ecj", os.O_RDWR|os.O_CREATE, 0644)
 	if err != nil {
 		panic(err)
@@ -95,10 +106,10 @@ func VerifC07_Delete() {
 	if present {
 		want := make([]byte, types.NeedleIdSize)
 		types.NeedleIdToBytes(want, del)
-		rt.Assert(rt.BytesEq(journal, want), "journal-records-the-delete")
+		rt.Assert(rt.BytesEq(journal, append(append([]byte(nil), before...), want...)), "journal-records-the-delete-after-what-it-held")
 	} else {
 		rt.Cover("miss")
-		rt.Assert(len(journal) == 0, "journal-untouched-on-miss")
+		rt.Assert(rt.BytesEq(journal, before), "journal-untouched-on-miss")
 	}
 }
 
